@@ -15,6 +15,7 @@ import (
 	"github.com/nspcc-dev/neo-go/pkg/core/block"
 	"github.com/nspcc-dev/neo-go/pkg/core/fee"
 	"github.com/nspcc-dev/neo-go/pkg/core/native/nativehashes"
+	cstate "github.com/nspcc-dev/neo-go/pkg/core/state"
 	"github.com/nspcc-dev/neo-go/pkg/core/storage"
 	"github.com/nspcc-dev/neo-go/pkg/core/transaction"
 	"github.com/nspcc-dev/neo-go/pkg/crypto/hash"
@@ -413,6 +414,7 @@ func (c *chainT) snapshot() *snap {
 	// MemoryStore.Seek needs a non-empty prefix (it picks its map by the first key byte).
 	for p := 0; p < 256; p++ {
 		c.store.Seek(storage.SeekRange{Prefix: []byte{byte(p)}}, func(k, v []byte) bool {
+			v = canonValue(k, v)
 			s.db[string(k)] = string(v)
 			var l [8]byte
 			l[0], l[1], l[2], l[3] = byte(len(k)), byte(len(k)>>8), byte(len(v)), byte(len(v)>>8)
@@ -439,6 +441,30 @@ func sameHashes(a, b []util.Uint256) bool {
 	return true
 }
 
+// canonValue removes representation noise that is not state: TokenTransferInfo serialises its
+// LastUpdated map in Go map order (pkg/core/state/tokens.go:102), so equal values have several encodings.
+func canonValue(k, v []byte) []byte {
+	if len(k) == 0 || k[0] != byte(storage.STTokenTransferInfo) {
+		return v
+	}
+	var ti cstate.TokenTransferInfo
+	r := io.NewBinReaderFromBuf(v)
+	ti.DecodeBinary(r)
+	if r.Err != nil {
+		return v
+	}
+	ids := make([]int, 0, len(ti.LastUpdated))
+	for id := range ti.LastUpdated {
+		ids = append(ids, int(id))
+	}
+	sort.Ints(ids)
+	out := fmt.Sprintf("tti %d %d %d %d %v %v", ti.NextNEP11Batch, ti.NextNEP17Batch, ti.NextNEP11NewestTimestamp, ti.NextNEP17NewestTimestamp, ti.NewNEP11Batch, ti.NewNEP17Batch)
+	for _, id := range ids {
+		out += fmt.Sprintf(" %d:%d", id, ti.LastUpdated[int32(id)])
+	}
+	return []byte(out)
+}
+
 // dbDiff returns the keys added/changed/removed between two dumps (sorted, hex).
 func dbDiff(a, b map[string]string) (added, changed, removed []string) {
 	for k, v := range b {
@@ -463,8 +489,22 @@ func gasBalance(c *chainT, h util.Uint160) *big.Int {
 	return c.bc.GetUtilityTokenBalance(h, util.Uint160{})
 }
 
-func short(h util.Uint256) string { return hex.EncodeToString(h.BytesBE()[:6]) }
-func short160(h util.Uint160) string { return hex.EncodeToString(h.BytesBE()[:6]) }
+// short / short160: 6-byte tokens for the line protocol. A digest of the whole value, not a prefix:
+// corruptions flip single bits anywhere in a hash. Zero stays recognisable.
+func short(h util.Uint256) string {
+	if h == (util.Uint256{}) {
+		return "000000000000"
+	}
+	d := sha256.Sum256(h[:])
+	return hex.EncodeToString(d[:6])
+}
+func short160(h util.Uint160) string {
+	if h == (util.Uint160{}) {
+		return "000000000000"
+	}
+	d := sha256.Sum256(h[:])
+	return hex.EncodeToString(d[:6])
+}
 func witID(w *transaction.Witness) string {
 	s := sha256.New()
 	s.Write([]byte{byte(len(w.InvocationScript)), byte(len(w.InvocationScript) >> 8)})
